@@ -198,6 +198,16 @@ func verify(fatalf func(string, ...any), s scenario, up http.Header, upHost stri
 	if got := lastXFF(up); got != peer {
 		fatalf("last element of X-Forwarded-For is %q, peer address is %q\n%s", got, peer, ctx)
 	}
+	// ... after everything an earlier hop (or the client) had put there
+	if http.CanonicalHeaderKey(s.cfg.ClientIPHeader) != "X-Forwarded-For" {
+		want := peer
+		if prior := s.sent["X-Forwarded-For"]; len(prior) > 0 {
+			want = strings.Join(prior, ", ") + ", " + peer
+		}
+		if got := strings.Join(up["X-Forwarded-For"], ", "); got != want {
+			fatalf("X-Forwarded-For = %q at the upstream, want the client's chain followed by the peer: %q\n%s", got, want, ctx)
+		}
+	}
 	// 3. X-Real-Ip
 	if sent := s.sent.Get("X-Real-Ip"); sent != "" {
 		if got := up.Get("X-Real-Ip"); got != sent {
